@@ -160,7 +160,7 @@ theorem phase_accumulated (ev : Ang → ℝ) (N : ℕ) (P : Params ℝ) (phase0 
       show ((0 : ℤ) : ℝ) / ((1 : ℕ) : ℝ) = 0
       simp
     rw [h0] at h
-    have := compileLoop_phase Real.pi ev N P gs 0 is φ h
+    have := compileLoop_phase dropsZeroDuration Real.pi ev N P gs 0 is φ h
     unfold reportedPhase
     rw [if_pos (show handsBackPhase = true from rfl), this, zero_add]
   · intro g _ hn
@@ -193,6 +193,9 @@ if `transpile` succeeds with `out`, then
    (`DepRespected`: C11's `dep_respected`), all instructions of positive duration and every order `σ` of
    non-decreasing start time.
 
+6. for the source after fixes/C06-2.patch (`dropsZeroDuration`, regenerated) every kept instruction has a positive
+   duration (IDLE gates given a positive time), so the hypothesis `hpos` of clause 5 holds by itself.
+
 Hypotheses that make it *partial*: `h2q` — with the source as found (`pre = false`) no gate on more than two
 qubits (TOFFOLI/FREDKIN are decomposed after routing onto non-neighbouring qubits: C13's counter-examples; with
 fixes/C13-1.patch, `pre = true`, the hypothesis is void); `hpos` in clause 5 — no instruction of duration 0 (a
@@ -207,11 +210,12 @@ theorem end_to_end_partial (circular pre : Bool) (N : ℕ) (ρ : ℕ → ℝ) (P
     ∃ (is : List (Instr ℝ)) (φ : ℝ) (ws : List (Matrix (St N) (St N) ℂ)),
       compile Real.pi (Ang.eval ρ) N P phase0 out = .ok (is, φ) ∧
       (∀ x ∈ out, NativeOK circular N x) ∧
-      (is ≠ [] → load Real.pi (Ang.eval ρ) circular N P phase0 out = .ok (is, φ)) ∧
+      (is ≠ [] ∨ loadsEmpty = true → load Real.pi (Ang.eval ρ) circular N P phase0 out = .ok (is, φ)) ∧
       is.mapM (instrProp circular N) = some ws ∧
       is.mapM (fun i => semD N ρ i.gate) = some ws ∧
       reportedPhase old φ = phaseSum (Ang.eval ρ) out ∧
       GateC.phase (reportedPhase old φ) • ordProd ws = U ∧
+      (dropsZeroDuration = true → (∀ g ∈ out, g.name = .IDLE → 0 < g.arg.eval ρ) → ∀ i ∈ is, 0 < i.dur) ∧
       ∀ (st : ℕ → ℝ) (σ : List ℕ), (∀ i ∈ is, 0 < i.dur) → DepRespected is st →
         σ.Perm (List.range is.length) → TimeOrdered st σ →
         GateC.phase (reportedPhase old φ) • ordProd (σ.map fun k => ws.getD k 1) = U := by
@@ -219,7 +223,8 @@ theorem end_to_end_partial (circular pre : Bool) (N : ℕ) (ρ : ℕ → ℝ) (P
   have hout : denG N ρ out = some U :=
     transpileV_den pre hroute (by rw [hb]; rfl) (chain_topoOK circular) hg hph h2q ht U hU
   have hnat := transpile_native_ok circular pre N gs out hg h2q ht
-  obtain ⟨is, φ, ws, h1, h2, h3, h4, h5⟩ := compileLoop_den circular N ρ P hP out 0 U hnat hout
+  obtain ⟨is, φ, ws, h1, h2, h3, h4, h5, h6, h7⟩ :=
+    compileLoop_den dropsZeroDuration circular N ρ P hP out 0 U hnat hout
   have hc : compile Real.pi (Ang.eval ρ) N P phase0 out = .ok (is, φ) := by
     unfold compile
     have h0 : (if compileResetsPhase = true then (Arith.ofFrac 0 1 : ℝ) else phase0) = 0 := by
@@ -232,17 +237,18 @@ theorem end_to_end_partial (circular pre : Bool) (N : ℕ) (ρ : ℕ → ℝ) (P
   have hsum := (phase_accumulated (Ang.eval ρ) N P phase0 old out is φ hc).1
   have hprod : GateC.phase (reportedPhase old φ) • ordProd ws = U := by
     rw [hrep, ← h3, sub_zero]
-  refine ⟨is, φ, ws, hc, hnat, ?_, h2, h4, hsum, hprod, ?_⟩
+  refine ⟨is, φ, ws, hc, hnat, ?_, h2, h4, hsum, hprod, ?_, ?_⟩
   · intro hne
     unfold load
     rw [hc]
     simp only
-    have he : is.isEmpty = false := by
-      cases is with
-      | nil => exact absurd rfl hne
-      | cons _ _ => rfl
-    rw [he]
-    simp only [Bool.false_eq_true, if_false]
+    by_cases he : is.isEmpty = true
+    · rw [if_pos he]
+      have hnil : is = [] := List.isEmpty_iff.mp he
+      rcases hne with hne | hle
+      · exact absurd hnil hne
+      · rw [if_pos hle]
+    rw [if_neg he]
     have hl : labelsOk circular N is = true := by
       unfold labelsOk
       rw [List.all_eq_true]
@@ -261,6 +267,11 @@ theorem end_to_end_partial (circular pre : Bool) (N : ℕ) (ρ : ℕ → ℝ) (P
         | none => rw [hctl] at this; simp at this
         | some _ => rfl
     rw [if_pos hl]
+  · intro hdrop hidle i hi
+    have hne := h6 hdrop i hi
+    rcases h7 i hi with ⟨hn, hd⟩ | hd
+    · rw [hd]; exact hidle _ (h5 i hi) hn
+    · exact lt_of_le_of_ne hd (Ne.symm hne)
   · intro st σ hpos hdep hσ hto
     rw [schedule_order circular N ρ is ws h4 (fun i hi => hnat _ (h5 i hi)) hpos st hdep σ hσ hto]
     exact hprod
